@@ -190,11 +190,14 @@ Proof. unfold ls_default_smoothing. ring. Qed.
 Lemma default_smoothing_not_covariant td s : 0 < td -> 0 < s -> s <> 1 ->
   ls_default_smoothing (s * td) <> ls_default_smoothing td / s.
 Proof.
-  intros Htd Hs Hne. unfold ls_default_smoothing.
-  match goal with |- ?c * _ <> _ => assert (Hc : 0 < c) by lra; generalize dependent c end.
-  intros c Hc E.
-  assert (E2 : c * td * (s * s) = c * td) by (apply (f_equal (fun v => v * s)) in E; revert E; unfold Rdiv;
-    intros E; replace (c * td * / s * s) with (c * td) in E by (field; lra); lra).
+  intros Htd Hs Hne.
+  (* the generated line is linear in the spacing with a positive coefficient c = ls_default_smoothing 1 *)
+  assert (Hlin : forall u, ls_default_smoothing u = ls_default_smoothing 1 * u) by (intros u; unfold ls_default_smoothing; ring).
+  assert (Hc : 0 < ls_default_smoothing 1) by (unfold ls_default_smoothing; lra).
+  rewrite (Hlin (s * td)), (Hlin td). generalize dependent (ls_default_smoothing 1). intros c _ Hc E.
+  assert (E2 : c * td * (s * s) = c * td).
+  { apply (f_equal (fun v => v * s)) in E. unfold Rdiv in E.
+    replace (c * td * / s * s) with (c * td) in E by (field; lra). lra. }
   assert (Hp : 0 < c * td) by (apply Rmult_lt_0_compat; assumption).
   assert (E3 : s * s = 1) by nra. apply Hne. nra.
 Qed.
@@ -224,7 +227,9 @@ Proof.
   intros Hm He Hws. induction Hws as [|w ws [Hw1 Hw2] _ IH]; intros L HL; [discriminate|].
   cbn [peak_loop] in HL. destruct (mini (fun x => - f x) (ls_peak_bracket e w)) as [r|] eqn:E; [|apply IH; exact HL].
   injection HL as <-. exists r. split; [reflexivity|].
-  unfold ls_peak_bracket in E. apply Hm in E.
+  assert (H1 : fst (fst (ls_peak_bracket e w)) = e * / w) by (unfold ls_peak_bracket, Rdiv; cbn [fst snd]; ring).
+  assert (H3 : snd (ls_peak_bracket e w) = e * w) by (unfold ls_peak_bracket, Rdiv; cbn [fst snd]; ring).
+  destruct (ls_peak_bracket e w) as [[a b] c]. cbn [fst snd] in H1, H3. subst a c. apply Hm in E.
   assert (Hw0 : 0 < w) by lra.
   assert (Hi1 : / w <= 5) by (rewrite <- (Rinv_inv 5); apply Rinv_le_contravar; lra).
   assert (Hi2 : / 5 <= / w) by (apply Rinv_le_contravar; lra).
